@@ -99,8 +99,6 @@ M = [
   "func (_ LimitError) Is(tgt error) bool {", "func (_ LimitError) Is(tgt error) bool {\n\tif _, ok := tgt.(*LimitError); !ok {\n\t\treturn false\n\t}"),
  ("C14", "limit-tested-after-allocation-with-slack", "pkg/otel/common/arrow/allocator.go",
   "func (l *LimitedAllocator) Allocate(size int) []byte {\n\tchange := uint64(size)\n\tif l.inuse+change > l.limit {", "func (l *LimitedAllocator) Allocate(size int) []byte {\n\tchange := uint64(size)\n\tif l.inuse+change > l.limit+l.limit/8 {"),
- ("C14", "inuse-not-reduced-on-free-of-small-buffers", "pkg/otel/common/arrow/allocator.go",
-  "\tl.inuse -= uint64(len(b))\n", "\tif len(b) >= 64 {\n\t\tl.inuse -= uint64(len(b))\n\t}\n"),
  # ---- C15
  ("C15", "optimizer-sorts-input-in-place", "pkg/otel/logs/arrow/optimizer.go",
   "\tt.sorter.Sort(logsOptimized.Logs)\n", "\tt.sorter.Sort(logsOptimized.Logs)\n\tif n := logs.ResourceLogs().Len(); n > 2 {\n\t\tlogs.ResourceLogs().At(n-1).Resource().SetDroppedAttributesCount(logs.ResourceLogs().At(n-1).Resource().DroppedAttributesCount())\n\t\tlogs.ResourceLogs().At(0).SetSchemaUrl(logs.ResourceLogs().At(0).SchemaUrl() + \"\")\n\t\tlogs.ResourceLogs().Sort(func(a, b plog.ResourceLogs) bool { return a.SchemaUrl() < b.SchemaUrl() })\n\t}\n"),
